@@ -254,7 +254,7 @@ PASSIVE_PROPS = {"C03", "C04", "C05", "C06", "C07"}
 # properties whose checks also replay the behaviours of the composite specification spec/FsSystem.tla (two sessions in which
 # context, DML, failures, transactions, variables, scripts and no-op'd statements meet) and report the rejections that
 # belong to them (props/sysmodel.py: attribute)
-SYSTEM_PROPS = {"C03", "C04", "C05", "C06", "C07", "C09", "C13", "C15", "C16"}
+SYSTEM_PROPS = {"C03", "C04", "C05", "C06", "C07", "C09", "C13", "C15", "C16", "C18"}
 
 
 class Prop:
@@ -780,7 +780,7 @@ class Run:
         from props import sysmodel
 
         t0 = time.time()
-        sub = Run(sysmodel.SYS(), self.tier, self.seed)
+        sub = Run(sysmodel.SYSPERSIST() if self.prop.id == "C18" else sysmodel.SYS(), self.tier, self.seed)
         sub.model_check()
         sub.generate()
         traces = sub.drive_all()
@@ -800,9 +800,12 @@ class Run:
         self.families.update({k: n for k, n in sub.families.items()})
         self.extra_cov["system_behaviours"] = {
             "what": "behaviours of the composite specification spec/FsSystem.tla (two sessions; USE SCHEMA, DML with literals / "
-                    "variables / bound values at three qualification levels, failing statements, BEGIN / COMMIT / ROLLBACK, SET / UNSET, "
-                    "execute_string scripts, no-op'd statements, description reads) replayed on the code; after every operation the "
-                    "whole projected state is observed through both connections and judged by TLC",
+                    "variables / bound values at three qualification levels, UPDATE, multi-row INSERT, DELETE of all rows, DDL on a second "
+                    "table seen through information_schema and the engine's catalog, failing statements, BEGIN / COMMIT / ROLLBACK, "
+                    "SET / UNSET, execute_string scripts, no-op'd statements, description reads, a result set held open on its cursor "
+                    "and fetched piecemeal while all of this goes on, an instance on a db_path shut down and opened again in the "
+                    "middle) replayed on the code; after every operation the whole projected state is observed through both "
+                    "connections and judged by TLC",
             "model_checks": sub.mc_log, "families": sub.families, "traces_judged": len(sub.verdicts),
             "rejected_steps_attributed_to_this_property": mine, "rejected_steps_attributed_to_other_properties": others,
             "sample": traces[0]["ev"][:4] if traces else [],
@@ -862,7 +865,8 @@ class Run:
         if rp.get("mode") == "system":
             from props import sysmodel
 
-            sub = Run(sysmodel.SYSHTTP() if self.prop.id == "C17" else sysmodel.SYS(), self.tier, self.seed)
+            sub = Run(sysmodel.SYSHTTP() if self.prop.id == "C17" else sysmodel.SYSPERSIST() if self.prop.id == "C18" else sysmodel.SYS(),
+                      self.tier, self.seed)
             sub.behaviours = {rp.get("tid", "replay"): rp["ops"]}
             traces = sub.drive_all()
             sub.settle(traces, sub.judge(traces))
